@@ -57,11 +57,11 @@ def portOf (netloc : Bytes) : Option (Option Nat) :=
   else if allDigits p && decToNat p ≤ 65535 then some (some (decToNat p))
   else none
 
-/-- `.username or .password` is truthy (`_userinfo`) -/
+/-- `.username is not None or .password is not None` (`_userinfo`): there is an `@` in the
+authority — an empty user info (`coap://@host/`) counts (message.py:718, since the fix that rejects
+it; before, the test was for truthiness and `@host` stayed in the remote's hostinfo) -/
 def hasUserinfo (netloc : Bytes) : Bool :=
-  netloc.contains 64 &&
-    (let ui := beforeLast 64 netloc
-     before 58 ui != [] || after 58 ui != [])
+  netloc.contains 64
 
 /-- `hostportsplit(hostport)`; `none` = `ValueError` -/
 def hostportsplit (hp : Bytes) : Option (Option Bytes × Option Nat) :=
@@ -88,9 +88,9 @@ def ip4Strict (h : Bytes) : Bool :=
 def ipNormAny (ip : IpOracle) (h : Bytes) : Option Bytes :=
   if ip4Strict h then some h else ip.norm6 h
 
-/-- `host.removeprefix("[").removesuffix("]")` -/
+/-- `host[1:-1] if host.startswith("[") and host.endswith("]") else host` (message.py `_quote_host`:
+brackets only count in pairs) -/
 def unbracket (h : Bytes) : Bytes :=
-  let h := if h.head? == some 91 then h.drop 1 else h
-  if h.getLast? == some 93 then h.dropLast else h
+  if h.head? == some 91 && h.getLast? == some 93 then (h.drop 1).dropLast else h
 
 end Aiocoap.Uri
